@@ -68,3 +68,22 @@ fn c20_fcp_library_lengths() {
     check("omega", len_omega);
     check("zeta3", |n| len_zeta(n, 3));
 }
+
+/// functions whose first plateau has height 0 (the sentinel-sensitive case): the iterator still
+/// starts with (0, 0)
+#[test]
+fn c20_fcp_zero_first_plateau() {
+    let mut it = FindChangePoints::new(|_x: u64| 0usize);
+    assert_eq!(it.next(), Some((0, 0)), "constant zero: first item");
+    assert_eq!(it.next(), None, "constant zero: the iterator must end");
+    for t in positions() {
+        if t == 0 || t > 1u64 << 63 {
+            continue;
+        }
+        let f = |x: u64| if x >= t { 3usize } else { 0 };
+        let mut it = FindChangePoints::new(f);
+        assert_eq!(it.next(), Some((0, 0)), "first item of a function starting at 0, step at {t}");
+        assert_eq!(it.next(), Some((t, 3)), "the change point must be found exactly (step at {t})");
+        assert_eq!(it.next(), None, "the iterator must end after the last change point (step at {t})");
+    }
+}
